@@ -1,6 +1,7 @@
 use crate::runner::CheckDef;
 pub mod c01;
 pub mod c02;
+pub mod c03;
 pub mod c05;
 pub mod c06;
 pub mod c07;
@@ -9,5 +10,5 @@ pub mod c11;
 pub mod hist;
 
 pub fn all() -> Vec<CheckDef> {
-    vec![c01::def(), c02::def(), c05::def(), c06::def(), c07::def(), c09::def(), c11::def()]
+    vec![c01::def(), c02::def(), c03::def(), c05::def(), c06::def(), c07::def(), c09::def(), c11::def()]
 }
